@@ -161,7 +161,9 @@ func operatorPairTrees() []*minijs.Node {
 		func(o *minijs.Node) *minijs.Node { return minijs.N("call", o) },
 		func(o *minijs.Node) *minijs.Node { return minijs.N("new", o, minijs.Id("x")) },
 		func(o *minijs.Node) *minijs.Node { return minijs.N("new", o) },
-		func(o *minijs.Node) *minijs.Node { return &minijs.Node{K: "new", NoArgs: true, Kids: []*minijs.Node{o}} },
+		func(o *minijs.Node) *minijs.Node {
+			return &minijs.Node{K: "new", NoArgs: true, Kids: []*minijs.Node{o}}
+		},
 	}
 	for _, f := range forms {
 		for _, g := range forms {
@@ -235,8 +237,8 @@ func noInTrees() []*minijs.Node {
 }
 
 var pairFacet = harness.Register(&harness.Facet[treeCase]{
-	Name:  "operator-pairs",
-	Rule:  "enumeration: every ordered pair of binary operators at both nestings, every same-level triple, prefix/postfix/assignment/conditional/comma against every binary operator in every operand position, assignment x assignment, unary x unary, all pairs and triples of member/index/call/new forms, every binary operator against `in` in the NoIn positions of for / for-var / for-in headers; each tree rendered three ways with fixed decoration streams and checked like the random facet; every case counts as non-trivial; distinct by JSON of the case",
+	Name: "operator-pairs",
+	Rule: "enumeration: every ordered pair of binary operators at both nestings, every same-level triple, prefix/postfix/assignment/conditional/comma against every binary operator in every operand position, assignment x assignment, unary x unary, all pairs and triples of member/index/call/new forms, every binary operator against `in` in the NoIn positions of for / for-var / for-in headers; each tree rendered three ways with fixed decoration streams and checked like the random facet; every case counts as non-trivial; distinct by JSON of the case",
 	Check: func(c treeCase) harness.Outcome {
 		o := checkTree(c)
 		o.Nontrivial = true
